@@ -111,6 +111,14 @@ func c09CfgNoFilter(p c09Params) *WorldCfg {
 func c09Cfg(p c09Params) *WorldCfg {
 	cfg := &WorldCfg{Prop: "C09", Driver: "c09", MemKB: p.MemKB, Defs: c09Defs(), Stmts: c09Stmts()}
 	switch p.Seed {
+	case "t1-btree":
+		// the B-link tree keeps its own pages and writes its state out at shutdown (catalog API table:
+		// B-tree index on the key column, none on the other)
+		td := cfg.Defs["t1"]
+		td.Idx = []string{"btree", ""}
+		cfg.Defs["t1"] = td
+		cfg.SeedCreate = []string{"t1"}
+		cfg.SeedStmts = []*Stmt{{Kind: "insert", Table: "t1", Cols: []string{"a", "s"}, Rows: [][]any{{int32(1), "x"}, {int32(3), "q"}}}}
 	case "t1":
 		cfg.SeedCreate = []string{"t1"}
 	case "t1-2pages":
@@ -134,7 +142,7 @@ func c09Cfg(p c09Params) *WorldCfg {
 			}
 		}
 		for _, t := range []string{"t1", "t2"} {
-			if p.Seed == "dealloc" {
+			if p.Seed == "dealloc" || p.Seed == "t1-btree" {
 				break
 			}
 			if t == "t2" && w.cfg.MemKB < 64 {
@@ -217,7 +225,7 @@ func init() {
 			}
 			// "dealloc": with 10 or 12 frames the pages of emptied index nodes are evicted and their ids are
 			// reused for heap pages; with 32 frames they stay flagged in the pool until the restart
-			combos = append(combos, ms{40, "dealloc"}, ms{48, "dealloc"}, ms{128, "dealloc"})
+			combos = append(combos, ms{40, "dealloc"}, ms{48, "dealloc"}, ms{128, "dealloc"}, ms{128, "t1-btree"})
 			for _, cb := range combos {
 				p := c09Params{MemKB: cb.mem, Seed: cb.seed}
 				core.BFS(c, core.SeqConfig{Name: fmt.Sprintf("c09/%s/mem%d", cb.seed, cb.mem), Params: p,
